@@ -182,6 +182,11 @@ theorem LkNetInvD_step (x y : P2P × TLState) (h : LkNetInvD x) (hs : LkYStep x 
   cases hs with
   | base _ _ hb =>
     cases hb with
+    | localInput s t handle input =>
+      obtain ⟨l, hl'⟩ := P2P.addLocalInput_pending s handle input
+      show LkNetInvD ((s.addLocalInput handle input).1, t)
+      rw [hl']
+      exact ⟨⟨gh, ⟨SessInvD_pending s gh t [] _ l hl.sess, hl.idle, hl.df, hl.full, hl.rows⟩, GlueInv_pending s gh.g l hg⟩, hn⟩
     | remoteInput s s' t now inp player handles addr hnl h0 hev =>
       obtain ⟨gh', st0', h', _, _, hcur, hh, _, hnq, hdf, hgrow, hflags, hdead, hsp⟩ :=
         remoteInput_specD s s' gh t [] _ now inp player handles addr hl.sess hnl h0 hev
